@@ -511,7 +511,10 @@ namespace
 	for (auto const &r: st.R)
 	  if (r.second.q == q)
 	    busy = true;
-	if (! st.Q.count (q) || busy)
+	// A result set holds on to what it needs of its query (zw_result keeps
+	// the op graph alive), so the query may go first; plans only do that
+	// when the knob is set.
+	if (! st.Q.count (q) || (busy && st.p.knob ("dropq_busy", 0) == 0))
 	  ev << " skip";
 	else
 	  {
